@@ -5,7 +5,6 @@ Exit codes: 0 held | 1 VIOLATION | 2 undecided on unchanged obligations | 3 chec
 """
 import importlib
 import json
-import multiprocessing as mp
 import os
 import re
 import subprocess
@@ -17,19 +16,56 @@ ROOT = os.path.dirname(os.path.dirname(os.path.dirname(os.path.abspath(__file__)
 REPO = os.environ.get('HV_REPO', '/repo')
 
 
-def _run_task(arg):
-    prop, tname, tier = arg
+def _run_task_inproc(prop, tname, tier):
     t0 = time.time()
     try:
         mod = importlib.import_module('props.%s' % prop)
-        from hv.frontend import extract
-        extract.reset_cache()
         res = mod.run_task(tname, tier)
         res.setdefault('task', tname)
         res['wall_s'] = time.time() - t0
         return res
     except Exception:
         return {'task': tname, 'error': traceback.format_exc(), 'obligations': [], 'units': [], 'wall_s': time.time() - t0}
+
+
+def run_tasks(prop, tasks, tier, jobs, timeout, verbose=False):
+    """One interpreter per task (isolation from solver crashes / hangs), at most `jobs` at a time, hard wall-clock limit."""
+    env = dict(os.environ)
+    env['PYTHONPATH'] = ROOT
+    env.setdefault('PYTHONHASHSEED', '0')
+    pending = list(tasks)
+    running = {}
+    results = []
+    while pending or running:
+        while pending and len(running) < jobs:
+            t = pending.pop(0)
+            p = subprocess.Popen([sys.executable, '-m', 'hv.report.runner', prop, '--task', t, '--tier', tier],
+                                 cwd=ROOT, env=env, stdout=subprocess.PIPE, stderr=subprocess.PIPE, text=True)
+            running[t] = (p, time.time())
+        time.sleep(0.05)
+        for t, (p, t0) in list(running.items()):
+            rc = p.poll()
+            if rc is None:
+                if time.time() - t0 > timeout:
+                    p.kill()
+                    p.communicate()
+                    del running[t]
+                    results.append({'task': t, 'obligations': [{'name': 'task-completes', 'status': 'unknown', 'backend': 'hv', 'time_s': timeout,
+                                                                'fp': 'timeout', 'reason': 'task exceeded its %ds wall-clock limit' % timeout, 'kind': 'limit'}],
+                                    'units': [], 'wall_s': timeout})
+                continue
+            out, err = p.communicate()
+            del running[t]
+            r = None
+            for l in out.splitlines():
+                if l.startswith('HVJSON '):
+                    r = json.loads(l[7:])
+            if r is None:
+                r = {'task': t, 'error': 'task process exited %s: %s' % (rc, (err or out)[-1500:]), 'obligations': [], 'units': [], 'wall_s': time.time() - t0}
+            results.append(r)
+            if verbose:
+                print('task %s: %d obligations, %.1fs%s' % (r['task'], len(r['obligations']), r['wall_s'], ' ERROR' if r.get('error') else ''), flush=True)
+    return results
 
 
 def load_findings():
@@ -103,12 +139,18 @@ def main(argv=None):
     ap.add_argument('--update-baseline', action='store_true')
     ap.add_argument('--jobs', type=int, default=int(os.environ.get('HV_JOBS', '16')))
     ap.add_argument('--only')
+    ap.add_argument('--task')
     ap.add_argument('-v', action='store_true')
     a = ap.parse_args(argv)
     prop = a.prop
     seed = int(os.environ.get('VERIF_SEED', '0') or 0)
     sys.path.insert(0, ROOT)
     os.chdir(ROOT)
+
+    if a.task:
+        r = _run_task_inproc(prop, a.task, a.tier)
+        print('HVJSON ' + json.dumps(r, default=str))
+        return 0
 
     if a.replay:
         with open(a.replay) as f:
@@ -142,13 +184,8 @@ def main(argv=None):
 
     results = []
     if tasks:
-        ctxm = mp.get_context('fork')
-        with ctxm.Pool(min(a.jobs, max(1, len(tasks)))) as pool:
-            for r in pool.imap_unordered(_run_task, [(prop, t, a.tier) for t in tasks]):
-                results.append(r)
-                if a.v:
-                    print('task %s: %d obligations, %.1fs%s' % (r['task'], len(r['obligations']), r['wall_s'],
-                                                                  ' ERROR' if r.get('error') else ''), flush=True)
+        tmo = getattr(mod, 'TASK_TIMEOUT', {}).get(a.tier, 600 if a.tier == 'quick' else 3600)
+        results = run_tasks(prop, tasks, a.tier, a.jobs, tmo, verbose=a.v)
     results.sort(key=lambda r: r['task'])
 
     violations = []      # (message, replay path)
